@@ -8,6 +8,15 @@ Two modes.
         results leave as JSON lines on <res_fd>.  The REAL query functions run against the
         pty in real time; the parent plays the terminal.  Nothing from the test-suite's
         `tests` package is imported (its stubs replace the very functions under test).
+        REPLY PLACEMENT (cases with a "place" key): the moment a reply ARRIVES relative to the
+        library's own steps is controlled without a clock: `termios.tcdrain`, `termios.tcsetattr`
+        and `termios.tcflush` are pass-through wrappers (the real call is made first, with the
+        caller's arguments) that, while a placed call runs, tell the terminal side that the
+        library has reached "D" = the request has been fully transmitted (tcdrain returned; the
+        library has made no further tty call yet) resp. "S" = the first attribute change after
+        that (read_tty has switched the tty to its reading mode and is about to wait), and wait
+        for its "go n" (n = bytes the terminal wrote at this point); the library goes on only
+        when those n bytes have been COUNTED in the tty's input queue (FIONREAD) -- see `Gates`.
 
   fast  `impl_c12.py` (stdin: JSON list of cases, stdout: JSON list of results) — the
         parsing / decision half of the same public functions, with `query_terminal`
@@ -249,6 +258,76 @@ def enter_initial_state(fd, attr0, init, send):
     return termios.tcgetattr(fd), ok
 
 
+class Gates:
+    """Pass-through wrappers around termios.tcdrain / tcsetattr / tcflush (installed once; inert
+    unless `on`): after the real call they report the point reached to the terminal side and
+    wait for its "go n".  Only two points are reported per request: "D" (tcdrain returned:
+    request fully transmitted, nothing else done yet) and "S" (the first tcsetattr after that
+    D).  Every other call passes through untouched.
+
+    The kernel hands bytes written to the pty master over to the slave's line discipline in a
+    worker, i.e. a moment after write() returned; so the library is let go on only when the n
+    bytes the terminal wrote at this point have been counted in the input queue.  FIONREAD
+    counts every byte only in non-canonical mode: if ICANON is set at that point it is cleared
+    for the duration of the wait and set again (TCSANOW both ways: the queue is kept; the
+    library itself reads in non-canonical mode only)."""
+
+    def __init__(self, fd, send, cmd_f):
+        self.fd, self.send, self.cmd_f = fd, send, cmd_f
+        self.on = False
+        self.armed = False
+        self.ok = True
+        self.log = []
+        self.real = (termios.tcdrain, termios.tcsetattr, termios.tcflush)
+        real_drain, real_setattr, real_flush = self.real
+
+        def tcdrain(fd_):
+            real_drain(fd_)
+            if self.on and fd_ == self.fd:
+                self.armed = True
+                self.sync("D")
+
+        def tcsetattr(fd_, when, attrs):
+            real_setattr(fd_, when, attrs)
+            if self.on and fd_ == self.fd:
+                self.log.append("S%d" % when)
+                if self.armed:
+                    self.armed = False
+                    self.sync("S")
+
+        def tcflush(fd_, queue):
+            real_flush(fd_, queue)
+            if self.on and fd_ == self.fd:
+                self.log.append("F%d" % queue)
+
+        termios.tcdrain, termios.tcsetattr, termios.tcflush = tcdrain, tcsetattr, tcflush
+
+    def sync(self, code):
+        real_setattr = self.real[1]
+        self.log.append(code)
+        cur = termios.tcgetattr(self.fd)
+        canon = bool(cur[3] & termios.ICANON)
+        if canon:
+            tmp = list(cur)
+            tmp[6] = list(cur[6])
+            tmp[3] &= ~termios.ICANON
+            real_setattr(self.fd, termios.TCSANOW, tmp)
+        try:
+            base = unread_count(self.fd)
+            self.send({"gate": code})
+            msg = json.loads(self.cmd_f.readline() or "{}")
+            n = int(msg.get("go", 0))
+            if n:
+                deadline = time.monotonic() + 15.0
+                while unread_count(self.fd) < base + n and time.monotonic() < deadline:
+                    time.sleep(0.0002)
+                if unread_count(self.fd) < base + n:
+                    self.ok = False
+        finally:
+            if canon:
+                real_setattr(self.fd, termios.TCSANOW, cur)
+
+
 def pty_main():
     cmd_f = os.fdopen(int(sys.argv[2]), "r")
     res_f = os.fdopen(int(sys.argv[3]), "w")
@@ -271,6 +350,7 @@ def pty_main():
         res_f.write(json.dumps(obj) + "\n")
         res_f.flush()
 
+    gates = Gates(fd, send, cmd_f)
     send({"hello": os.ttyname(fd), "lflag_icanon_echo": bool(attr0[3] & termios.ICANON) and bool(attr0[3] & termios.ECHO)})
     for line in cmd_f:
         cmd = json.loads(line)
@@ -291,10 +371,16 @@ def pty_main():
             met, staged_ok = enter_initial_state(fd, attr0, cmd["init"], send)
         size = list(os.get_terminal_size(fd))
         del writes[:]
+        gates.on, gates.armed, gates.ok = bool(cmd.get("place")), False, True
+        del gates.log[:]
         t0 = time.monotonic()
-        res = call(cmd["op"], cmd)
+        try:
+            res = call(cmd["op"], cmd)
+        finally:
+            gates.on = False
         t1 = time.monotonic()
-        res.update(t0=t0, t1=t1, size=size, writes=list(writes), staged_ok=staged_ok)
+        res.update(t0=t0, t1=t1, size=size, writes=list(writes), staged_ok=staged_ok and gates.ok,
+                   tty_calls=list(gates.log))
         send(res)
 
 
